@@ -132,13 +132,14 @@ func (dc *DeploymentController) syncDeployment(ctx context.Context, deployment *
 		return dc.syncStatusOnly(ctx, d, rsList)
 	}
 
-	if dc.strategy.Paused {
-		return dc.sync(ctx, d, rsList)
-	}
-
 	scalingEvent, err := dc.isScalingEvent(ctx, d, rsList)
 	if err != nil {
 		return err
+	}
+
+	if dc.strategy.Paused && !scalingEvent {
+		// A paused strategy freezes the rollout: without a scaling event there is nothing to resize.
+		return dc.syncStatusOnly(ctx, d, rsList)
 	}
 
 	if scalingEvent {
